@@ -41,7 +41,8 @@ oracles and the clauses of the property they cover
   C01/sequence      the MULTI-STEP clause: several methods / options called one after another on the SAME dataset object (and
                     the same precision object, the same list object) must each equal the formula computed from a private copy of
                     the raw numbers: EXHAUSTIVE over ordered pairs of steps from the 11-step alphabet x descriptor / none x
-                    float / int data (single), 7-step alphabet (list form), movie form; seeded sequences of length 6.
+                    float / int data (single), 8-step alphabet incl. one shared list of per-dataset precisions (list form), movie form;
+                    seeded sequences of length 6.
   C01/movie         "an RDM movie equals the stack of RDMs computed separately at each (binned) time point": per distinct
                     (binned) time value the formula on the condition means of exactly the samples at that time; bins by
                     membership; time labels on the RDMs; sorted / unsorted axes, list / array time descriptors, other time
@@ -343,6 +344,13 @@ def _sopt(opt, noise):
                 prior=tuple(opt.get('prior', (1.0, 0.1))))
 
 
+def _measure_ok(measure, method, opt):
+    """the stored name of the measure names the method (a mahalanobis distance without precision IS the euclidean one)"""
+    if method in str(measure):
+        return True
+    return method == 'mahalanobis' and not opt.get('noise') and 'euclidean' in str(measure)
+
+
 def _kind_ok(method, kind):
     return not (method == 'poisson' and kind == 'signed')
 
@@ -433,7 +441,7 @@ def orc_descriptors(case):
         if k in res.descriptors and _same(res.descriptors[k], v):
             continue
         return f'dataset descriptor {k}={v!r} is not attached to the RDM (rdm_descriptors {dict(rd)}, descriptors {res.descriptors})'
-    if method not in str(res.dissimilarity_measure):
+    if not _measure_ok(res.dissimilarity_measure, method, opt):
         return f'dissimilarity_measure {res.dissimilarity_measure!r} does not name the method {method!r}'
     return None
 
@@ -634,7 +642,7 @@ def orc_list_descriptors(case):
                 continue
             return (f'descriptor {k}={v!r} of dataset {i} is not attached to its RDM (row {r}): rdm_descriptors '
                     f'{ {a: list(b) if b is not None else None for a, b in rd.items()} }, descriptors {res.descriptors}')
-    if method not in str(res.dissimilarity_measure):
+    if not _measure_ok(res.dissimilarity_measure, method, opt):
         return f'dissimilarity_measure {res.dissimilarity_measure!r} does not name the method {method!r}'
     return None
 
@@ -815,7 +823,7 @@ def _movie_check(case, merge):
     if case['check'] == 'labels':
         if why:
             return why
-        if method not in str(res.dissimilarity_measure):
+        if not _measure_ok(res.dissimilarity_measure, method, opt):
             return f'dissimilarity_measure {res.dissimilarity_measure!r} does not name the method {method!r}'
         for i, ds in enumerate(dss):
             for f, (j, t, _, _) in enumerate(frames_ds):
@@ -903,19 +911,25 @@ def orc_sequence(case):
         dss.append(ds)
         idents.append(labels if descriptor is not None else ex['oid'])
     shared = {'spd': _noise(rs, n_ch, 'spd'), 'diag': _noise(rs, n_ch, 'diag')}
+    per_ds = [_noise(rs, n_ch, 'spd') for _ in dss]     # ONE list object of per-dataset precisions for all steps
     keep = {k: v.copy() for k, v in shared.items()}
+    keep_per_ds = [n.copy() for n in per_ds]
     arg = dss[0] if form == 'single' else dss          # the same object(s) in every step
     key = descriptor if descriptor is not None else 'oid'
     for s, (method, opt) in enumerate(steps):
-        noise = shared[opt['noise']] if opt.get('noise') else None
+        if opt.get('noise') == 'per-dataset':
+            noise = per_ds
+        else:
+            noise = shared[opt['noise']] if opt.get('noise') else None
         with warnings.catch_warnings():
             warnings.simplefilter('ignore')
             res = calc_rdm(arg, method=method, descriptor=descriptor, **_kwargs(opt, noise))
         changed = [i for i, (ds, raw) in enumerate(zip(dss, raws))
                    if not (ds.measurements.shape == raw.shape and np.array_equal(ds.measurements, raw))]
         hint = (f' [measurements of dataset object {changed} no longer equal the data it was built from]' if changed else '')
-        if any(not np.array_equal(shared[k], keep[k]) for k in shared):
-            hint += ' [the precision matrix object was modified]'
+        if any(not np.array_equal(shared[k], keep[k]) for k in shared) or len(per_ds) != len(keep_per_ds) or \
+                any(not np.array_equal(a, b) for a, b in zip(per_ds, keep_per_ds)):
+            hint += ' [a precision matrix object was modified]'
         tag = f'step {s} ({_opt_label(method, opt)}) after {[_opt_label(m, o) for m, o in steps[:s]]}: '
         if form == 'list' and descriptor is None:
             n_obs = raws[0].shape[0]
@@ -935,7 +949,8 @@ def orc_sequence(case):
             err = _check_names(names_r, distinct)
             if err:
                 return tag + err + hint
-            err = _cmp_vec(dis[order[i]], names_r, distinct, means, method, _sopt(opt, None if noise is None else keep[opt['noise']]))
+            spec_noise = None if noise is None else (keep_per_ds[i] if opt['noise'] == 'per-dataset' else keep[opt['noise']])
+            err = _cmp_vec(dis[order[i]], names_r, distinct, means, method, _sopt(opt, spec_noise))
             if err:
                 return tag + (f'dataset {i}: ' if form == 'list' else '') + err + hint
     return None
@@ -1001,16 +1016,20 @@ def _random_labels(rs, n_cond, max_rep):
 def tier_c(run, thorough):
     bds = []
     schemes = ['int', 'str', 'numstr', 'float', 'int-unsorted'] if thorough else ['int', 'str', 'numstr']
-    seqs = list(_surjective_sequences(6 if thorough else 4, 4))
+    if thorough:
+        seqs = list(_surjective_sequences(6, 3)) + [q for q in _surjective_sequences(5, 4) if max(q) == 3]
+    else:
+        seqs = list(_surjective_sequences(4, 4))
+    seq_txt = 'length <= 6 onto <= 3 conditions and of length <= 5 onto 4 conditions' if thorough else 'length <= 4 onto <= 4 conditions'
     kinds = ('pos', 'count', 'signed')
 
     # ---- values: exhaustive labelings -------------------------------------------------------------------------------
     bd = Bounded(run, 'C01/values-labelings', 'C01/calc_rdm/oracle/value-per-label-pair-is-formula-on-condition-means',
-                 'ALL label sequences of length <= %d onto <= 4 conditions (%d sequences) x %d label naming schemes %s x 11 '
+                 'ALL label sequences of %s (%d sequences) x %d label naming schemes %s x 11 '
                  'method/option combinations (euclidean, correlation, mahalanobis with / without SPD precision, poisson default / '
                  'given prior, each with / without remove_mean); 5 channels; data seeded (positive float / integer counts / signed '
                  'rotated); list / array descriptors rotated'
-                 % (6 if thorough else 4, len(seqs), len(schemes), schemes), exhaustive=True, function='calc_rdm')
+                 % (seq_txt, len(seqs), len(schemes), schemes), exhaustive=True, function='calc_rdm')
     i = 0
     for seq in seqs:
         for sch in schemes:
@@ -1053,10 +1072,10 @@ def tier_c(run, thorough):
 
     # ---- descriptors ------------------------------------------------------------------------------------------------
     bd = Bounded(run, 'C01/descriptors', 'C01/calc_rdm/oracle/descriptors-on-the-right-rdm-and-condition',
-                 'ALL label sequences of length <= %d onto <= 4 conditions x %d naming schemes, method/option rotated over the 11 '
+                 'ALL label sequences of %s x %d naming schemes, method/option rotated over the 11 '
                  'combinations, list / array descriptors, with and without condition descriptor; obs descriptors: one constant '
                  'within conditions, one varying, one unique; dataset descriptors int and str'
-                 % (6 if thorough else 4, len(schemes)), exhaustive=True, function='_build_rdms')
+                 % (seq_txt, len(schemes)), exhaustive=True, function='_build_rdms')
     i = 0
     for seq in seqs:
         for sch in schemes:
@@ -1074,8 +1093,8 @@ def tier_c(run, thorough):
                 'one-element-list')
     n_seed = 30 if thorough else 6
     bd = Bounded(run, 'C01/invariance', 'C01/calc_rdm/oracle/values-depend-only-on-the-multiset-of-observation-label-pairs',
-                 '%d seeds x 7 variants %s x 8 method/option combinations (no remove_mean for the one-element list: see '
-                 'list,remove_mean); 2..5 conditions, unbalanced, 3..5 channels' % (n_seed, list(variants)), function='calc_rdm')
+                 '%d seeds x 7 variants %s x 8 method/option combinations (no remove_mean for the one-element list: option forwarding '
+                 'is C01/list); 2..5 conditions, unbalanced, 3..5 channels' % (n_seed, list(variants)), function='calc_rdm')
     for seed in range(n_seed):
         rs = np.random.RandomState(2000 + seed)
         seq = _random_labels(rs, 2 + seed % 4, 3)
@@ -1084,9 +1103,9 @@ def tier_c(run, thorough):
                 if method == 'poisson' and opt.get('remove_mean') or method == 'correlation' and opt.get('remove_mean') \
                         or (method == 'mahalanobis' and not opt.get('noise') and opt.get('remove_mean')):
                     continue
-                ic = var
                 if var == 'one-element-list' and opt.get('remove_mean'):
-                    ic = K_LIST_RM
+                    continue                      # option forwarding of the list form is checked by C01/list
+                ic = var
                 bd.check(orc_invariance, dict(seed=seed, labels=seq, names=NAMES[list(NAMES)[seed % 5]], P=3 + seed % 3,
                                               kind='count' if var == 'float-data' else ('pos', 'count')[seed % 2],
                                               method=method, opt=opt, variant=var), ic,
@@ -1162,7 +1181,7 @@ def tier_c(run, thorough):
     bds.append(bd)
 
     # ---- list without condition descriptor --------------------------------------------------------------------------
-    bd = Bounded(run, 'C01/list-no-descriptor', 'C01/calc_rdm[list,no descriptor]/oracle/rdm-i-is-formula-on-observations-of-dataset-i',
+    bd = Bounded(run, 'C01/list-no-descriptor', 'C01/calc_rdm[list,no-descriptor]/oracle/rdm-i-is-formula-on-observations-of-dataset-i',
                  'lists of 1..3 datasets of 3..5 observations without condition descriptor x 8 method/option combinations: no obs '
                  'descriptor at all / only a non-unique one / a unique one in the same order / in differing order (array- and '
                  'list-typed) / with different values per dataset', function='calc_rdm')
@@ -1194,7 +1213,7 @@ def tier_c(run, thorough):
     # ---- sequences --------------------------------------------------------------------------------------------------
     bd = Bounded(run, 'C01/sequence', 'C01/calc_rdm/oracle/each-call-of-a-sequence-on-the-same-objects-equals-the-formula',
                  'ALL ordered pairs of steps from the 11-step alphabet on ONE dataset object x {condition descriptor, none} x '
-                 '{float, integer data}; ALL ordered pairs from the 7-step alphabet without remove_mean on ONE list of 2 datasets; '
+                 '{float, integer data}; ALL ordered pairs from the 8-step alphabet without remove_mean (incl. ONE shared list of per-dataset precisions) on ONE list of 2 datasets; '
                  'ALL ordered pairs from 5 steps on ONE temporal dataset (movie); %d seeded sequences of length 6; shared '
                  'precision objects' % (40 if thorough else 8), exhaustive=True, function='calc_rdm')
     seq7 = [1, 0, 2, 0, 1, 1, 3]
@@ -1207,8 +1226,9 @@ def tier_c(run, thorough):
                     bd.check(orc_sequence, dict(seed=i % 71, labels=seq7, names=NAMES['str'], P=5, kind=kind, descriptor=descriptor,
                                                 form='single', steps=[list(s1), list(s2)], desc=('list', 'array')[i % 2]),
                              'single,' + ('descriptor' if descriptor else 'no-descriptor') + ',' + kind, function='_parse_input')
-    for s1 in GRID_NO_RM:
-        for s2 in GRID_NO_RM:
+    list_steps = GRID_NO_RM + [('mahalanobis', {'noise': 'per-dataset'})]
+    for s1 in list_steps:
+        for s2 in list_steps:
             for descriptor in ('cond', None):
                 i += 1
                 bd.check(orc_sequence, dict(seed=i % 71, labels=seq7, names=NAMES['str'], P=4, kind=('pos', 'count')[i % 2],
@@ -1317,7 +1337,7 @@ def tier_c(run, thorough):
                            ('mahalanobis', {'noise': 'per-dataset'}, None, 'time', 'noise-per-dataset'),
                            ('poisson', {'prior': [2.0, 0.5]}, None, 'time', K_MOVIE_LIST_PRIOR),
                            ('euclidean', {}, [[0.0, 1.0], [2.0]], 'time', K_MOVIE_LIST_BINS),
-                           ('euclidean', {}, None, 'lat', K_MOVIE_LIST_TD)]
+                           ('euclidean', {}, None, 'lat', 'time_descriptor,values')]
             for method, opt, bins, tkey, ic in variants_ml:
                 i += 1
                 case = dict(seed=i % 53, labels=[1, 0, 2, 0, 1], names=NAMES[('str', 'int')[i % 2]], P=3, kind='pos', times=times,
@@ -1326,6 +1346,8 @@ def tier_c(run, thorough):
                 bd.check(orc_movie_list, case, ic, function='calc_rdm_movie')
                 if ic in ('defaults', 'noise-shared', 'noise-per-dataset'):
                     bd.check(orc_movie_labels, case, K_LIST_SINGLE if n_ds == 1 else ic + ',labels', function='calc_rdm_movie')
+                if tkey != 'time':
+                    bd.check(orc_movie_labels, case, K_MOVIE_LIST_TD, function='calc_rdm_movie')
     bd.done()
     bds.append(bd)
     return bds
